@@ -52,6 +52,7 @@ type Params struct {
 	Sync            int // 0 async producer, 1 SyncProducer.SendMessage per message, 2 one SendMessages call
 	Codec           sarama.CompressionCodec
 	KV              bool // keys and headers on some messages (see KeyOf / HeadersOf)
+	OldHdr          bool // oldhdr=1: headers also under a message format that cannot carry them (the producer must refuse such a message)
 }
 
 func atoi(v url.Values, k string, def int) int {
@@ -87,6 +88,7 @@ func Parse(v url.Values) (*Params, error) {
 		p.Codec = sarama.CompressionZSTD
 	}
 	p.KV = atoi(v, "kv", 0) == 1
+	p.OldHdr = atoi(v, "oldhdr", 0) == 1
 	ver := v.Get("ver")
 	if ver == "" {
 		ver = "2.1.0"
@@ -647,7 +649,7 @@ func (p *Params) TimestampOf(i int) time.Time {
 }
 
 func (p *Params) HeadersOf(i int) []sarama.RecordHeader {
-	if !p.KV || i%3 != 0 || !p.Version.IsAtLeast(sarama.V0_11_0_0) {
+	if !p.KV || i%3 != 0 || (!p.Version.IsAtLeast(sarama.V0_11_0_0) && !p.OldHdr) {
 		return nil
 	}
 	return []sarama.RecordHeader{{Key: []byte("h"), Value: []byte("v" + strconv.Itoa(i))}, {Key: []byte("empty"), Value: []byte{}}}
